@@ -436,8 +436,16 @@ fn roundtrip_exec<L: Drv>(tier: Tier, chunk: u64) -> (Vec<Fail>, u64, u64, Vec<u
             let s1: Pattern<L> = Pattern::Subst(Box::new(pat.clone()), Box::new(to_pattern(x)), Box::new(to_pattern(y)));
             let s2: Pattern<L> = Pattern::Subst(Box::new(s1.clone()), Box::new(to_pattern(z)), Box::new(to_pattern(x)));
             let s3: Pattern<L> = Pattern::Subst(Box::new(pat.clone()), Box::new(s1.clone()), Box::new(to_pattern(z)));
-            // nested inside a node: wrap through the first binary/unary operator pattern of the base list
-            for s in [s1, s2, s3] {
+            // substitution brackets in an argument position of an operator
+            let mut nested: Vec<Pattern<L>> = Vec::new();
+            if let Pattern::ENode(n, ch) = &pat {
+                for i in 0..ch.len() {
+                    let mut ch2 = ch.clone();
+                    ch2[i] = Pattern::Subst(Box::new(ch[i].clone()), Box::new(to_pattern(x)), Box::new(to_pattern(y)));
+                    nested.push(Pattern::ENode(n.clone(), ch2));
+                }
+            }
+            for s in [s1, s2, s3].into_iter().chain(nested.into_iter()) {
                 evals += 1;
                 goals |= 1;
                 let printed = s.to_string();
@@ -599,7 +607,7 @@ impl Prop for ParseProp {
         vec!["substitution_bracket_roundtrip", "multipattern_roundtrip", "mutation_accepted_by_parser", "token_string_accepted_by_parser"]
     }
     fn rule(&self) -> String {
-        "Round trip: every term and pattern (pattern variables ?a ?b as leaves) of size <=3 (thorough 4) of four languages (Arith: payloads u32/Symbol; ArrayLang: non-binding lam; Sdql: nested Bind; Sym) with one numeric, one textual slot name is built with the enum constructors (no parser), printed and parsed back (Pattern, RecExpr), wrapped in three substitution-bracket forms per base pattern, and put in 1-2 equation multi-patterns. Robustness: every prefix/suffix, single-token deletion/duplication/replacement/insertion (13-token alphabet), splice and multi-byte insertion of every valid text of size <=3, and every token string of length <=5 (thorough 6) over the alphabet, through Pattern::parse, RecExpr::parse, MultiPattern::parse under catch_unwind: Err is fine, Ok must be well formed (children count = operator arity) and print->parse to itself. Non-trivial = text accepted by at least one parser.".into()
+        "Round trip: every term and pattern (pattern variables ?a ?b as leaves) of size <=3 (thorough 4) of four languages (Arith: payloads u32/Symbol; ArrayLang: non-binding lam; Sdql: nested Bind; Sym) with one numeric, one textual slot name is built with the enum constructors (no parser), printed and parsed back (Pattern, RecExpr), wrapped in three substitution-bracket forms per base pattern and with a substitution bracket on each argument, and put in 1-2 equation multi-patterns. Robustness: every prefix/suffix, single-token deletion/duplication/replacement/insertion (13-token alphabet), splice and multi-byte insertion of every valid text of size <=3, and every token string of length <=5 (thorough 6) over the alphabet, through Pattern::parse, RecExpr::parse, MultiPattern::parse under catch_unwind: Err is fine, Ok must be well formed (children count = operator arity) and print->parse to itself. Non-trivial = text accepted by at least one parser.".into()
     }
     fn assumptions(&self) -> Vec<String> {
         vec!["payload values are restricted to ones that print unambiguously (no whitespace/brackets, u32 before Symbol)".into()]
